@@ -219,8 +219,8 @@ func runC04(c *core.Ctx) {
 			switch {
 			case core.OutcomeFailed(st, um):
 				return // undecodable block is skipped
-			case core.OutcomeFailed(st, cur) && core.CondOutcome(st, isEOF) == 2:
-				return // `err != io.EOF` false: end of the head segment
+			case core.OutcomeFailed(st, cur) && eofEstablished(st) == 1:
+				return // the error is io.EOF: end of the head segment
 			case defined(st, ws) && core.CondOutcome(st, isRetry) == 2:
 				return // target answered: success or permanent rejection
 			}
@@ -267,7 +267,7 @@ func runC04(c *core.Ctx) {
 		complete := f.Flow().ExplorePaths(func(k core.VarKey, fct core.Fact) bool {
 			return k.Root == nil && strings.HasPrefix(k.Path, "cond:") && fct.Def != nil && isEOF(fct.Def)
 		}, func(e *core.Event, st core.State) {
-			if e.Kind == core.EvCall && th(e.Call) && core.CondOutcome(st, isEOF) != 1 {
+			if e.Kind == core.EvCall && th(e.Call) && eofEstablished(st) != 1 {
 				bad = "trimHead reachable in queue.Advance without segment.advance having reported io.EOF"
 			}
 		})
